@@ -183,7 +183,7 @@ Proof. split; [intros _; reflexivity|unfold rewind; cbn [fp]; lia]. Qed.
 Lemma step_total F file o st : (length file + 3 <= F)%nat -> wkf file st ->
   exists r st', step fill_buffer F file o st = Some (r, st') /\ wkf file st'.
 Proof.
-  intros LF WL. destruct o as [n|n|k w| | | |q|]; cbn [step].
+  intros LF WL. destruct o as [n|n|k w| | | |q| |]; cbn [step].
   - apply do_read_total; assumption.
   - unfold do_readinto. destruct (do_read_total F file n st LF WL) as (r & st' & H1 & H2). rewrite H1.
     destruct r; eexists; exists st'; (split; [reflexivity|exact H2]).
@@ -214,6 +214,7 @@ Proof.
     destruct (mode st); eexists; eexists; (split; [reflexivity|]); (split; [exact A|exact B]).
   - unfold do_write_r. destruct (check_can_write_r st); eexists; eexists; (split; [reflexivity|exact WL]).
   - unfold do_query. destruct q; destruct (check_not_closed st); eexists; eexists; (split; [reflexivity|exact WL]).
+  - eexists; eexists; (split; [reflexivity|exact WL]).
   - eexists; eexists; (split; [reflexivity|exact WL]).
 Qed.
 
